@@ -156,3 +156,10 @@ package buffer
 //@   decreases len(c)
 //@   gset pending(w) = *
 //@   ensures implies(isnil(err), n == len(c))
+
+// ---- a write that reports success has stored the whole of p (property C08, "a writer that fails ... results in an
+// ---- error"): the slice-backed buffer stores up to its LENGTH, not its capacity (finding F73)
+//@ func Buffer.Write
+//@   property C08
+//@   requires 0 <= b.n && b.n <= len(b.buf)
+//@   ensures implies(err == nil, n == len(p))
